@@ -429,8 +429,8 @@ def run_race(ctx, exe, sr_edges, monprop):
     hooked = "coro.sr.fin_fsub" in open(os.path.join(ctx.repo, "include", "unifex", "task.hpp")).read()
     if not hooked:
         rep.note("task.hpp has no coro.sr.* schedule points in this tree: the controlled-thread mode only interleaves at stop.* / harness sites")
-    runs = [("dfs", ["--mode", "dfs", "--bound", 2 if ctx.quick else 3, "--cap", 50 if ctx.quick else 1500]),
-            ("random", ["--mode", "random", "--seed", ctx.seed, "--cap", 25 if ctx.quick else 500])]
+    runs = [("dfs", ["--mode", "dfs", "--bound", 2 if ctx.quick else 3, "--cap", 50 if ctx.quick else 400]),
+            ("random", ["--mode", "random", "--seed", ctx.seed, "--cap", 25 if ctx.quick else 200])]
     lp = os.path.join(ctx.work, "race_log.ndjson")
     open(lp, "w").close()
     t0 = time.time()
